@@ -76,7 +76,18 @@ pub struct Emit {
     pub payload: Payload,
     /// file index
     pub file: usize,
+    /// how the receivers `app` / `window` / `webview` are declared (index into SIGNATURES)
+    #[serde(default)]
+    pub sig: usize,
 }
+
+/// (generics of the function, declarations of app / window / webview)
+pub const SIGNATURES: [(&str, &str); 4] = [
+    ("", "app: &AppHandle, window: &tauri::Window, webview: &tauri::Webview"),
+    ("<R: tauri::Runtime>", "app: AppHandle<R>, window: &WebviewWindow<R>, webview: tauri::Webview<R>"),
+    ("<E: Emitter>", "app: &tauri::AppHandle<tauri::Wry>, window: tauri::WebviewWindow, webview: &E"),
+    ("<R: tauri::Runtime>", "app: &tauri::AppHandle<R>, window: tauri::Window<R>, webview: &tauri::WebviewWindow<R>"),
+];
 
 #[derive(Debug, Clone, Serialize, Deserialize)]
 pub struct Case {
@@ -137,9 +148,11 @@ impl Case {
             let is_async = PLACEMENTS[e.placement].0 == "await";
             let returns_result = PLACEMENTS[e.placement].0 == "try";
             files[e.file].push_str(&format!(
-                "pub {}fn fire_{}(app: &AppHandle, window: &tauri::Window, webview: &tauri::Webview, this: &Ctx, ctx: &Ctx, other: &Ctx, emitter: &AppHandle, my_app: &AppHandle, flag: bool, n: i32{}){} {{\n{}{}{}}}\n\n",
+                "pub {}fn fire_{}{}({}, this: &Ctx, ctx: &Ctx, other: &Ctx, emitter: &AppHandle, my_app: &AppHandle, flag: bool, n: i32{}){} {{\n{}{}{}}}\n\n",
                 if is_async { "async " } else { "" },
                 k,
+                SIGNATURES[e.sig % SIGNATURES.len()].0,
+                SIGNATURES[e.sig % SIGNATURES.len()].1,
                 params,
                 if returns_result { " -> Result<(), tauri::Error>" } else { "" },
                 pre,
@@ -347,13 +360,26 @@ pub fn replay(case: &Value) -> Vec<Violation> {
 pub fn run(tier: Tier) -> CheckResult {
     let mut res = CheckResult::new("C12", "exploration");
     let deadline = tier_deadline(tier);
-    let one = |name: &str, placement: usize, receiver: usize, emit_to: bool, payload: Payload| Emit { name: name.into(), placement, receiver, emit_to, payload, file: 0 };
+    let one = |name: &str, placement: usize, receiver: usize, emit_to: bool, payload: Payload| Emit { name: name.into(), placement, receiver, emit_to, payload, file: 0, sig: 0 };
     let mut cases: Vec<Case> = vec![];
     // (1) placement x receiver x emit/emit_to (payload: literal)
     for p in 0..PLACEMENTS.len() {
         for r in 0..RECEIVERS.len() {
             for emit_to in [false, true] {
                 cases.push(Case { emits: vec![one("state-changed", p, r, emit_to, Payload::Lit("1".into()))], zod: (p + r) % 2 == 0 });
+            }
+        }
+    }
+    // (1b) every declaration form of the three documented receiver variables (generic parameters,
+    // qualified paths, by value / by reference) x those receivers x emit / emit_to
+    for sig in 1..SIGNATURES.len() {
+        for r in 0..3 {
+            for emit_to in [false, true] {
+                for zod in [false, true] {
+                    let mut e = one("state-changed", 0, r, emit_to, Payload::Lit("1".into()));
+                    e.sig = sig;
+                    cases.push(Case { emits: vec![e], zod });
+                }
             }
         }
     }
@@ -424,10 +450,32 @@ pub fn run(tier: Tier) -> CheckResult {
                             _ => Payload::Lit("\"x\"".into()),
                         },
                         file: k % files,
+                        sig: 0,
                     })
                     .collect();
                 cases.push(Case { emits: emits.clone(), zod: false });
                 cases.push(Case { emits, zod: true });
+            }
+        }
+    }
+    // (4a) two sites whose payloads are spelled differently in Rust but translate to the same type:
+    // the listener keeps that type
+    for (a, b) in [
+        (Payload::Lit("\"hi\"".into()), Payload::TypedParam(RTy::Ref(Box::new(RTy::prim("str"))))),
+        (Payload::Lit("\"hi\"".into()), Payload::TypedParam(RTy::prim("String"))),
+        (Payload::Lit("0".into()), Payload::TypedParam(RTy::prim("u8"))),
+        (Payload::TypedParam(RTy::prim("i64")), Payload::RefOfParam(RTy::prim("f32"))),
+        (Payload::TypedParam(RTy::vec(RTy::named("Item"))), Payload::TypedLet(RTy::BTreeSet(Box::new(RTy::named("Item"))))),
+        (Payload::TypedParam(RTy::HashMap(Box::new(RTy::prim("String")), Box::new(RTy::prim("i32")))), Payload::CloneOfParam(RTy::BTreeMap(Box::new(RTy::prim("String")), Box::new(RTy::prim("u64"))))),
+        (Payload::StructExpr, Payload::TypedParam(RTy::named("Item"))),
+    ] {
+        for files in 1..=2usize {
+            for zod in [false, true] {
+                let mut e0 = one("same-shape", 13, 0, false, a.clone());
+                let mut e1 = one("same-shape", 2, 1, true, b.clone());
+                e0.file = 0;
+                e1.file = files - 1;
+                cases.push(Case { emits: vec![e0, e1], zod });
             }
         }
     }
@@ -446,6 +494,7 @@ pub fn run(tier: Tier) -> CheckResult {
                         emit_to: k % 2 == 1,
                         payload: if differing && k >= 2 { Payload::Lit("true".into()) } else { [Payload::StructExpr, Payload::Lit("1".into()), Payload::Lit("\"s\"".into())][*n].clone() },
                         file: k % files,
+                        sig: 0,
                     })
                     .collect();
                 cases.push(Case { emits: emits.clone(), zod: false });
